@@ -576,7 +576,7 @@ func init() {
 		FreshProcessReplay: true,
 		Cases: func(ctx *Ctx) int {
 			if ctx.Tier == "thorough" {
-				return 600000
+				return 4000000
 			}
 			return 150000
 		},
